@@ -479,7 +479,7 @@ func (fc *FuncCtx) wellFormed(v *Term, t types.Type, alloc *Term) *Term {
 	case *types.Interface:
 		if v.Sort == SAny {
 			return Implies(&Term{"((_ is a_ref) " + v.S + ")", SBool},
-				And(Gt(App(SInt, "a_ref_v", v), IntLit(0)), Lt(App(SInt, "a_ref_v", v), alloc)))
+				And(Ge(App(SInt, "a_ref_v", v), IntLit(0)), Lt(App(SInt, "a_ref_v", v), alloc)))
 		}
 	case *types.Signature:
 		if v.Sort == SFn {
@@ -591,7 +591,8 @@ func (e *Env) evalCall(x *ECall) Val {
 		return Val{T: App(SInt, "seq.indexof", s.T, t.T, IntLit(0)), Typ: ti}
 	case "replaceAll":
 		s, a, b := arg(0), arg(1), arg(2)
-		return Val{T: App(SStr, "seq.replace_all", s.T, a.T, b.T), Typ: s.Typ}
+		fc.d.Fun("seq_replace_all", []Sort{SStr, SStr, SStr}, SStr)
+		return Val{T: App(SStr, "seq_replace_all", s.T, a.T, b.T), Typ: s.Typ}
 	case "unit":
 		a := arg(0)
 		var st types.Type
@@ -647,6 +648,13 @@ func (e *Env) evalCall(x *ECall) Val {
 	case "refOf":
 		a := arg(0)
 		return Val{T: App(SInt, "a_ref_v", a.T)}
+	case "mapTypeId":
+		a := arg(0)
+		fc.d.Fun("is_map_type", []Sort{SInt}, SBool)
+		return Val{T: App(SBool, "is_map_type", a.T), Typ: tb}
+	case "isref":
+		a := arg(0)
+		return Val{T: &Term{"((_ is a_ref) " + a.T.S + ")", SBool}, Typ: tb}
 	case "isnil":
 		a := arg(0)
 		return Val{T: Eq(a.T, nilOf(a.T.Sort)), Typ: tb}
